@@ -15,6 +15,7 @@ spec fn clen(c *BytecodeCompiler) int = len(c.bytecode.Instructions)
 spec fn ci(c *BytecodeCompiler, k int) int = elem(c.bytecode.Instructions, k)
 spec fn be16(c *BytecodeCompiler, k int) int = ci(c, k) * 256 + ci(c, k + 1)
 spec fn wfC(c *BytecodeCompiler) bool = c != nil && wfFn(c.bytecode)
+spec fn jkey(c *BytecodeCompiler, offset int) int = ptrint(c) * 4294967296 + offset
 spec fn started(c *BytecodeCompiler) bool = len(c.bytecode.LineInfoList) >= 1
 
 // Recording a compile error touches only the diagnostic list (its own lock, its own backing
@@ -85,6 +86,10 @@ func (*BytecodeCompiler).emitJump
   ensures jpop: (op == bytecode.JUMP_UNLESS || op == bytecode.JUMP_IF || op == bytecode.JUMP_UNLESS_NIL) ==> ghost(depth, c) == old(ghost(depth, c)) - 1
   ensures jpeek: (op == bytecode.JUMP_UNLESS_NP || op == bytecode.JUMP_IF_NP || op == bytecode.JUMP_UNLESS_NNP) ==> ghost(depth, c) == old(ghost(depth, c))
   ensures live: ghost(dead, c) == old(ghost(dead, c))
+  // the depth on the path that takes the jump, remembered under the jump's operand offset until
+  // the jump is patched (joins: verif_contracts_depth.go); the key pairs compiler and offset
+  ensures ghostdef jrec: ghost(jdepth, jkey(c, ret)) == ghost(depth, c)
+  ensures ghostdef jothers: forall k mathint :: k != jkey(c, ret) ==> ghost(jdepth, k) == old(ghost(jdepth, k))
 
 // patching writes the operand exactly when it fits in 16 bits; nothing else changes.  When it
 // does not fit nothing is written (the failure is recorded in c.Errors, outside this contract)
